@@ -393,6 +393,17 @@ class Monotone(Harness):
         yield 'pass-stays-pass', s_implies(obs['before'] == True, obs['after'] == True)  # noqa: E712
 
 
+def _worker_policy_harness():
+    """O10 (semantic): two failing policy audits through two worker tasks that share one configuration report the same errors as one - i.e. every evaluation
+    runs on a Policy whose error list starts empty (the assumption under which O1..O9 compare evaluate() with the specification)."""
+    from props.c07 import ConfigIsolation
+
+    class WorkerPolicy(ConfigIsolation):
+        prop, ob = PROP, 'O10'
+        name = 'workerpolicy-two-tasks-one-configuration'
+    return WorkerPolicy()
+
+
 def fresh_policy_per_evaluation():
     """assumption check (glue): evaluate() accumulates errors in the Policy object; the call sites must therefore hand every audit its own
     Policy (target_worker_thread deep-copies the configuration).  Syntactic check on the current source."""
@@ -464,7 +475,7 @@ def tasks(tier):
         for larger in (False, True):
             for nopt in ((0, 1) if q else (0, 1, 2)):
                 T.append(TextPolicyEval(subset, larger, nopt))
-    T.append(fresh_policy_per_evaluation)
+    T.append(_worker_policy_harness())
     return T
 
 
@@ -478,6 +489,8 @@ def harness_by_name(name, params):
         return BannerEval(params['n'], params['with_kex'])
     if k == 'textpolicy':
         return TextPolicyEval(params['subset'], params['larger'], params['nopt'])
+    if k == 'workerpolicy':
+        return _worker_policy_harness()
     if k == 'monotone':
         return Monotone(params['field'], params['pshape'], params['kshape'], params['drop'])
     raise KeyError(name)
@@ -491,5 +504,5 @@ META = {
                'thorough': 'plus 3x3 lists everywhere, 2-char names, 2x2 pair interactions, three fields at once'},
     'outside': ['lists longer than 3', 'policies with several size entries at once (entries are evaluated independently in a loop)'],
     'stubs': [],
-    'assumptions': ['a fresh Policy object per evaluation (glue check O10)'],
+    'assumptions': ['every evaluation starts from an empty error list: checked semantically by O10 (two worker tasks sharing one configuration)'],
 }
